@@ -172,11 +172,39 @@ func c10CoqString(s string) string {
 	if plain {
 		return c11CoqStr(string(raw))
 	}
-	var l []string
-	for _, c := range raw {
-		l = append(l, fmt.Sprint(int(c)))
+	isPlain := func(c byte) bool { return !(c < 0x20 && c != '\n' && c != '\r' || c >= 0x7f) }
+	bytesTerm := func(b []byte) string {
+		var l []string
+		for _, c := range b {
+			l = append(l, fmt.Sprint(int(c)))
+		}
+		return "(sb " + coqList(l) + "%nat)"
 	}
-	return "(sb " + coqList(l) + "%nat)"
+	// long texts with a few such bytes (an SDP with a hostile value): literal runs joined with the byte runs
+	// (a list of numbers per byte of the whole text is slow to read for Coq)
+	if len(raw) > 40 {
+		var parts []string
+		for i := 0; i < len(raw); {
+			j := i
+			for j < len(raw) && isPlain(raw[j]) == isPlain(raw[i]) {
+				j++
+			}
+			if isPlain(raw[i]) {
+				parts = append(parts, c11CoqStr(string(raw[i:j])))
+			} else {
+				parts = append(parts, bytesTerm(raw[i:j]))
+			}
+			i = j
+		}
+		if len(parts) <= 8 {
+			term := parts[len(parts)-1]
+			for k := len(parts) - 2; k >= 0; k-- {
+				term = "(String.append " + parts[k] + " " + term + ")"
+			}
+			return term
+		}
+	}
+	return bytesTerm(raw)
 }
 
 func c10Coq(j *vj) string {
